@@ -275,6 +275,9 @@ func checkC01(r *Report) {
 	// e. LOOP-NONZERO: a return inside an element loop carries a non-zero sign
 	nLR := loopReturnRule(r, p, "C01.e/LOOP-NONZERO", threeWayFns(p, "semver"))
 	r.floor("C01.e/LOOP-NONZERO", "returns inside loops of the comparators of package semver", nLR, 15)
+	// f. PARALLEL-REMAINDERS
+	nPR := parallelRemainderRule(r, p, "C01.f/PARALLEL-REMAINDERS", threeWayFns(p, "semver"))
+	r.floor("C01.f/PARALLEL-REMAINDERS", "pairs of loop-carried rests advanced by the same function in the comparators of package semver", nPR, 1)
 }
 
 // tiebreakRule (deny-list): the comparator's final return must not be a
@@ -559,6 +562,25 @@ func tagListRule(r *Report, p *Prog, rule string) {
 				k, ok := args[len(args)-1].(*ssa.Const)
 				if !ok || k.Value == nil || !strings.HasSuffix(k.Type().String(), "resolve/version.AttrKey") || !constant.Compare(k.Value, token.EQL, tagsVal) {
 					continue
+				}
+				// a read of the tags inside a loop over the versions runs for EVERY
+				// element: a `continue` ahead of it (for versions that do not
+				// parse, say) hides the tag of exactly those versions
+				if l := innermostLoop(naturalLoops(f), b); l != nil {
+					every := true
+					for bb := range l.body {
+						for _, s := range bb.Succs {
+							if s == l.header && !b.Dominates(bb) {
+								every = false
+							}
+						}
+					}
+					lkey := fnKey(f) + ": the tags of every element of the loop are read"
+					if every {
+						r.ok(rule, lkey, p.pos(call.Pos()), "the read dominates every back edge of its loop")
+					} else {
+						r.bad(rule, lkey, p.pos(call.Pos()), "the loop goes on to the next element on a path that skips the read of the element's tags: a version that takes that path (one whose string does not parse) is never recognised as carrying the tag")
+					}
 				}
 				// the string result
 				var vals []ssa.Value
